@@ -214,6 +214,16 @@ func Run(c *common.Ctx) error {
 			}
 		}
 	}
+	// cookies ahead of the database by 2^63 or more (a subtraction of the two ids in a signed type would see them behind)
+	for _, role := range []string{"primary", "replica", "noprimary"} {
+		for _, m := range []string{"GET", "HEAD", "POST"} {
+			for _, path := range []string{"/app", "/pass/x"} {
+				for _, ck := range []string{"ahead-by-2^63", "largest"} {
+					cases = append(cases, reqCase{Method: m, Path: path, Cookie: ck, Role: role, Timing: "none", DBThere: true})
+				}
+			}
+		}
+	}
 	// replication timing: the awaited transaction lands while the proxy is polling (replica), or never
 	for i := 0; i < c.Pick(4, 20); i++ {
 		cases = append(cases, reqCase{Method: "GET", Path: "/app", Cookie: "ahead", Role: "replica", Timing: "during", DBThere: true})
@@ -222,7 +232,7 @@ func Run(c *common.Ctx) error {
 		// quick tier: a deterministic third of the "none" cross product (all of it in thorough)
 		var sub []reqCase
 		for i, rc := range cases {
-			if rc.Timing == "during" || i%3 == int(c.Seed%3) || rc.Cookie == "ahead" {
+			if rc.Timing == "during" || i%3 == int(c.Seed%3) || strings.HasPrefix(rc.Cookie, "ahead") || rc.Cookie == "largest" {
 				sub = append(sub, rc)
 			}
 		}
@@ -252,6 +262,10 @@ func Run(c *common.Ctx) error {
 			cookieTXID = cur
 		case "ahead":
 			cookieTXID = cur + 1
+		case "ahead-by-2^63":
+			cookieTXID = cur + 1<<63
+		case "largest":
+			cookieTXID = ^uint64(0)
 		}
 		if cookieTXID != 0 {
 			req.AddCookie(&http.Cookie{Name: "__txid", Value: ltx.TXID(cookieTXID).String()})
@@ -402,6 +416,9 @@ func Run(c *common.Ctx) error {
 		}
 	}
 	configWiring(c)
+	if err := failedPromotion(c); err != nil {
+		return err
+	}
 	// a primary that is told to step down (litefs demote) gives its lease back at once and then sits out the demote delay:
 	// during that time it is not the primary any more, and a write through its proxy is not for the local application
 	{
